@@ -40,7 +40,8 @@ def mk_case(cid, elems, keys, rng, container=None, legal=True, keytext=None):
     key = keytext if keytext is not None else render_key(keys, rng)
     return {"id": cid, "kind": "c17",
             "abs": {"elems": es, "keys": keys, "legal": legal},
-            "args": {"elems": es, "container": container, "key": key}}
+            # (a quarter of the elements are written with upper-case direction letters - '154N97W14')
+            "args": {"elems": es, "container": container, "key": key, "upper": [rng.random() < 0.25 for _ in es]}}
 
 
 def check(ctx, cases):
